@@ -19,7 +19,7 @@ func propC18() *Property {
 		NotDecided: "behaviour for every size and content (e.g. empty datagrams through UDPAssociateWrapper.ReadFrom); reordering inside the tunnel (a stream preserves order by construction); loss in the UDP legs.",
 		Rules: []Rule{
 			{ID: "R18.1", Floor: 3, Text: "frame writer/reader vs the documented frame", Run: func(c *RC) { ruleAssociateFrame(c); r18_1(c) }},
-			{ID: "R18.2", Floor: 4, Text: "PacketOverStreamTunnel.Read reads the stream only through io.ReadFull", Run: r18_2},
+			{ID: "R18.2", Floor: 3, Text: "PacketOverStreamTunnel.Read reads the stream only through io.ReadFull", Run: r18_2},
 			{ID: "R18.3", Floor: 5, Text: "violations are errors; loops stop on tunnel read errors", Run: r18_3},
 			{ID: "R18.4", Floor: 4, Text: "remembered headers are private copies keyed by the datagram's own address; reply headers come from the replying address", Run: r18_4},
 			{ID: "R18.5", Floor: 3, Text: "AddrSpec.ReadFromSocks5 and WriteToSocks5 agree on type bytes, lengths and port byte order", Run: r18_5},
@@ -36,7 +36,7 @@ func r18_1(c *RC) {
 	}
 	// make([]byte, 4+len(p)); copy(data[3:], p); data[3+len(p)] = 0xff
 	size4, copy3, trailer := false, false, false
-	instrs(wr, func(_ *ssa.BasicBlock, _ int, in ssa.Instruction) {
+	instrs(frameBuilder(p, wr), func(_ *ssa.BasicBlock, _ int, in ssa.Instruction) {
 		switch x := in.(type) {
 		case *ssa.MakeSlice:
 			if bo, ok := x.Len.(*ssa.BinOp); ok && bo.Op == token.ADD {
@@ -83,7 +83,8 @@ func r18_2(c *RC) {
 		c.Anchor("PacketOverStreamTunnel.Read")
 		return
 	}
-	instrs(rd, func(_ *ssa.BasicBlock, _ int, in ssa.Instruction) {
+	for _, f := range withHelpers(p, rd, 2) {
+	instrs(f, func(_ *ssa.BasicBlock, _ int, in ssa.Instruction) {
 		cl, ok := in.(ssa.CallInstruction)
 		if !ok {
 			return
@@ -102,6 +103,7 @@ func r18_2(c *RC) {
 			c.Bad("stream-read@Read", in.Pos(), "io.ReadAtLeast may read past the frame")
 		}
 	})
+	}
 }
 
 func r18_3(c *RC) {
@@ -112,60 +114,124 @@ func r18_3(c *RC) {
 		c.Anchor("PacketOverStreamTunnel.Read/Write")
 		return
 	}
-	// Read: on every comparison failure edge (marker != const, length > len(p)) the successor returns (0, non-nil)
-	instrs(rd, func(b *ssa.BasicBlock, _ int, in ssa.Instruction) {
-		iff, ok := in.(*ssa.If)
-		if !ok {
-			return
-		}
-		bo, ok := iff.Cond.(*ssa.BinOp)
-		if !ok {
-			return
-		}
-		var failSucc *ssa.BasicBlock
-		what := ""
-		switch bo.Op {
-		case token.NEQ:
-			if k, ok := constInt(bo.Y); ok && (k == 0 || k == 255) {
-				failSucc, what = b.Succs[0], "marker"
+	// Read: on every comparison failure edge (marker != const, length > len(p))
+	// the reader returns (0, non-nil) at once. A check extracted into a helper
+	// returns a non-nil error there, and every call of the helper in the reader
+	// turns that into (0, error).
+	errorExit := func(blk *ssa.BasicBlock) bool {
+		for _, x := range blk.Instrs {
+			if r, ok := x.(*ssa.Return); ok && len(r.Results) >= 1 {
+				last := len(r.Results) - 1
+				if retIsNil(r, last) {
+					return false
+				}
+				if last > 0 {
+					n, isK := constInt(retVal(r, 0))
+					return isK && n == 0
+				}
+				return true
 			}
-		case token.GTR:
-			failSucc, what = b.Succs[0], "length"
 		}
-		if failSucc == nil {
-			return
+		return false
+	}
+	callersPropagate := func(h *ssa.Function) bool {
+		sites := p.CallsToFn(h)
+		if len(sites) == 0 {
+			return false
 		}
-		key := "violation-is-error:" + what
-		good := false
-		for _, x := range failSucc.Instrs {
-			if r, ok := x.(*ssa.Return); ok && len(r.Results) == 2 {
-				n, _ := constInt(retVal(r, 0))
-				if !retIsNil(r, 1) && n == 0 {
-					good = true
+		for _, cs := range sites {
+			cv, ok := cs.Instr.(*ssa.Call)
+			if !ok {
+				return false
+			}
+			checked := false
+			for _, r := range *cv.Referrers() {
+				bo, ok := r.(*ssa.BinOp)
+				if !ok || bo.Op != token.NEQ {
+					continue
+				}
+				for _, u := range *bo.Referrers() {
+					if iff, ok := u.(*ssa.If); ok && errorExit(iff.Block().Succs[0]) {
+						checked = true
+					}
 				}
 			}
+			if !checked {
+				return false
+			}
 		}
-		if good {
-			c.OKH(key, iff.Pos(), "returns (0, error)")
-		} else {
-			c.Bad(key, iff.Pos(), "a %s violation in the frame reader does not return (0, error) immediately: the stream would be consumed out of frame", what)
-		}
-	})
-	// Write: len(p) > 65535 check dominates the MakeSlice
-	var guard, mk ssa.Instruction
+		return true
+	}
+	for _, f := range withHelpers(p, rd, 2) {
+		f := f
+		instrs(f, func(b *ssa.BasicBlock, _ int, in ssa.Instruction) {
+			iff, ok := in.(*ssa.If)
+			if !ok {
+				return
+			}
+			bo, ok := iff.Cond.(*ssa.BinOp)
+			if !ok {
+				return
+			}
+			var failSucc *ssa.BasicBlock
+			what := ""
+			switch bo.Op {
+			case token.NEQ, token.EQL:
+				for _, k := range markerConsts(p, f, bo) {
+					if k == 0 || k == 255 {
+						what = "marker"
+					}
+				}
+				if what != "" {
+					failSucc = b.Succs[0]
+					if bo.Op == token.EQL {
+						failSucc = b.Succs[1]
+					}
+				}
+			case token.GTR:
+				failSucc, what = b.Succs[0], "length"
+			}
+			if failSucc == nil {
+				return
+			}
+			key := "violation-is-error:" + what
+			good := errorExit(failSucc) && (f == rd || callersPropagate(f))
+			if good {
+				c.OKH(key, iff.Pos(), "returns (0, error)")
+			} else {
+				c.Bad(key, iff.Pos(), "a %s violation in the frame reader does not return (0, error) immediately: the stream would be consumed out of frame", what)
+			}
+		})
+	}
+	// Write: len(p) > 65535 is refused before the frame is built or sent
+	var guard *ssa.If
+	var send ssa.Instruction
 	instrs(wr, func(_ *ssa.BasicBlock, _ int, in ssa.Instruction) {
 		switch x := in.(type) {
 		case *ssa.If:
-			if bo, ok := x.Cond.(*ssa.BinOp); ok && bo.Op == token.GTR {
-				if k, ok := constInt(bo.Y); ok && k == 65535 {
-					guard = in
+			isLenP := func(v ssa.Value) bool {
+				cl, ok := v.(*ssa.Call)
+				if !ok || calleeNameAny(cl) != "len" {
+					return false
 				}
+				_, isParam := cl.Common().Args[0].(*ssa.Parameter)
+				return isParam
+			}
+			is64k := func(v ssa.Value) bool { k, ok := constInt(v); return ok && k == 65535 }
+			if cmpForm(x.Cond, token.GTR, isLenP, is64k) {
+				guard = x
 			}
 		case *ssa.MakeSlice:
-			mk = in
+			if send == nil {
+				send = in
+			}
+		case *ssa.Call:
+			if send == nil && (frameBuilder(p, wr) == x.Common().StaticCallee() || (x.Common().IsInvoke() && x.Common().Method.Name() == "Write")) {
+				send = in
+			}
 		}
 	})
-	if guard != nil && mk != nil && instrDominates(guard, mk) {
+	if guard != nil && send != nil && instrDominates(guard, send) && !blockReach(guard.Block().Succs[guardFailIdx(guard)], nil)[send.Block()] {
 		c.OKH("oversize@Write", guard.Pos(), "len(p) > 65535 is refused before the frame is built")
 	} else {
 		c.Bad("oversize@Write", wr.Pos(), "the frame writer does not refuse datagrams longer than 65535 bytes (the 16-bit length would wrap and desynchronise the stream)")
@@ -475,4 +541,24 @@ func r18_5(c *RC) {
 	} else {
 		c.Bad("port-order", rd.Pos(), "port byte order differs between reader (high byte first=%v) and writer (%v)", shl, order)
 	}
+}
+
+
+// guardFailIdx: the successor index of a `len(p) > 65535` guard (in any
+// spelling) on which the packet is too long.
+func guardFailIdx(iff *ssa.If) int {
+	_, neg := condAtom(iff.Cond)
+	v, _ := condAtom(iff.Cond)
+	bo := v.(*ssa.BinOp)
+	tooLongWhenTrue := bo.Op == token.GTR || bo.Op == token.LSS // len > k, k < len
+	if bo.Op == token.LEQ || bo.Op == token.GEQ {
+		tooLongWhenTrue = false
+	}
+	if neg {
+		tooLongWhenTrue = !tooLongWhenTrue
+	}
+	if tooLongWhenTrue {
+		return 0
+	}
+	return 1
 }
